@@ -280,27 +280,52 @@ class FunctionAnalysis:
             else:
                 lo += c * iv[1]
                 hi += c * iv[0]
-        # facts: single-step substitution  lf = f + (lf - f)  =>  ub(lf) <= ub(f) + ub(lf - f), for facts sharing an atom with lf
+        # facts: single-step substitution  lf = m*f + (lf - m*f), m > 0  =>  ub(lf) <= m*ub(f) + ub(lf - m*f), for facts sharing an atom with lf
         if lf.t and st.facts:
             for fk, ub in st.facts.items():
-                share = False
+                m = None
                 for a, c in fk:
-                    if lf.t.get(a) == c:
-                        share = True
+                    v = lf.t.get(a)
+                    if v is not None and c != 0 and (v > 0) == (c > 0) and v % c == 0:
+                        m = v // c
                         break
-                if not share:
+                if m is None or m <= 0:
                     continue
                 r_hi = lf.k
                 rest = dict(lf.t)
                 for a, c in fk:
-                    rest[a] = rest.get(a, 0) - c
+                    rest[a] = rest.get(a, 0) - m * c
                 for a, c in rest.items():
                     if c == 0:
                         continue
                     iv = self.atom_iv(a, st)
                     r_hi += c * (iv[1] if c > 0 else iv[0])
-                if ub + r_hi < hi:
-                    hi = ub + r_hi
+                if m * ub + r_hi < hi:
+                    hi = m * ub + r_hi
+                # the same fact read as a lower bound of -f:  lf = -m*(-f) ...: handled by the facts stored for the negated form
+        # lower bounds from facts on negated forms:  (-lf) <= c  =>  lf >= -c
+        if lf.t and st.facts:
+            neg = {a: -c for a, c in lf.t.items()}
+            for fk, ub in st.facts.items():
+                m = None
+                for a, c in fk:
+                    v = neg.get(a)
+                    if v is not None and c != 0 and (v > 0) == (c > 0) and v % c == 0:
+                        m = v // c
+                        break
+                if m is None or m <= 0:
+                    continue
+                r_hi = -lf.k
+                rest = dict(neg)
+                for a, c in fk:
+                    rest[a] = rest.get(a, 0) - m * c
+                for a, c in rest.items():
+                    if c == 0:
+                        continue
+                    iv = self.atom_iv(a, st)
+                    r_hi += c * (iv[1] if c > 0 else iv[0])
+                if -(m * ub + r_hi) > lo:
+                    lo = -(m * ub + r_hi)
         return (lo, hi)
 
     def iv(self, o, st, allow_lf=True):
